@@ -29,6 +29,9 @@ FORBIDDEN = re.compile(
 )
 
 os.environ.setdefault(GUARD, "1")
+import logging as _logging
+
+_logging.disable(_logging.CRITICAL)  # the library logs every injected fault; the checks read state, not logs
 
 
 def seed() -> int:
